@@ -5,12 +5,12 @@ from typing import Optional
 from metapype.eml import validate, evaluate, export, rule
 from metapype.model import metapype_io, mp_io
 from metapype.model.node import Node
-from harness.hlib import nodes, snap, nsmap_sharing, store_keys, part, bound
+from harness.hlib import fresh, nodes, snap, nsmap_sharing, store_keys, part, bound
 
 OP = part(0) % 100       # operation pinned per process
 FLD = part(0) // 100     # which field carries the symbolic value: 0 content, 1 tail, 2 attribute value, 3 extras value
 MAXLEN = bound(2)
-WHERE = (2, 6, 11, 1)    # title, userId, unitList (own nsmap, under metadata), dataset
+WHERE = (2, 9, 14, 1)    # title, userId, unitList (own nsmap, under metadata), dataset  (indices in document order)
 
 
 class FakeJson:
@@ -30,7 +30,7 @@ mp_io.json = FakeJson
 
 def _tree(val: Optional[str], where: int, fld: int, has_dir: bool):
     """eml > dataset > (title, creator > (individualName > surName, userId), additionalMetadata-like sibling with its own nsmap)."""
-    Node.store.clear()
+    fresh()
     eml = Node("eml", id="n0")
     eml.add_attribute("packageId", "pkg.1.1")
     eml.add_attribute("system", "sys")
@@ -44,12 +44,16 @@ def _tree(val: Optional[str], where: int, fld: int, has_dir: bool):
     uid = Node("userId", id="n6", content="0000-0001")
     if has_dir:
         uid.add_attribute("directory", "https://orcid.org")
+    cr2 = Node("creator", id="n12")                 # second creator: path queries fan out over two nodes
+    ind2 = Node("individualName", id="n13")
+    sur2 = Node("surName", id="n14", content="Other")
     con = Node("contact", id="n7")
     org = Node("organizationName", id="n8", content="Org")
     am = Node("additionalMetadata", id="n9")
     md = Node("metadata", id="n10")
     ul = Node("unitList", id="n11")
-    for p, c in ((eml, ds), (ds, title), (ds, cr), (cr, ind), (ind, sur), (cr, uid), (ds, con), (con, org), (eml, am), (am, md), (md, ul)):
+    for p, c in ((eml, ds), (ds, title), (ds, cr2), (cr2, ind2), (ind2, sur2), (ds, cr), (cr, ind), (ind, sur), (cr, uid), (ds, con), (con, org),
+                 (eml, am), (am, md), (md, ul)):
         p.add_child(c)
     # a descendant that repeats its parent's prefixes and adds one (its own dict object)
     ul.nsmap = {"eml": "https://eml.ecoinformatics.org/eml-2.2.0", "xsi": "http://www.w3.org/2001/XMLSchema-instance",
@@ -76,7 +80,7 @@ def _state(root):
 
 def _apply(op: int, root: Node) -> None:
     ds = root.children[0]
-    cr = ds.children[1]
+    cr = ds.children[2]
     if op == 0:
         errs = []
         validate.tree(root, errs)
@@ -116,6 +120,10 @@ def _apply(op: int, root: Node) -> None:
         root.find_all_descendants("userId", acc)
         root.find_single_node_by_path(["dataset", "creator", "userId"])
         root.find_all_nodes_by_path(["dataset", "creator"])
+        root.find_all_nodes_by_path(["dataset", "creator", "individualName"])
+        root.find_all_nodes_by_path(["dataset", "creator", "individualName", "surName"])
+        ds.find_all_children("creator")
+        ds.children[1].find_all_children("individualName")
         cr.get_ancestry()
         ds.child_index(cr)
     elif op == 11:
@@ -125,7 +133,7 @@ def _apply(op: int, root: Node) -> None:
         r.is_allowed_child("abstract")
     elif op == 12:
         Node.is_equal(root, ds)
-        Node.is_equal(cr, ds.children[2])
+        Node.is_equal(cr, ds.children[3])
         Node.is_equal(root, root)
     elif op == 13:
         metapype_io.to_xml(root, None, 0, True)
